@@ -106,7 +106,9 @@ var inCidrAddr = map[string]string{"": "127.0.0.1", "127.0.0.1/8": "127.0.0.1", 
 
 func c17Cluster(bad string) *Cluster {
 	one := func(x int64) ChanC { return ChanC{Depth: Pair{0, x}, MessageCount: Pair{0, x}, Clients: []string{}} }
-	tp := func() TopicC { return TopicC{Depth: Pair{0, 1}, MessageCount: Pair{0, 2}, Channels: ChanMap{"c1": one(1)}} }
+	tp := func() TopicC {
+		return TopicC{Depth: Pair{0, 1}, MessageCount: Pair{0, 2}, Channels: ChanMap{"c1": one(1)}}
+	}
 	return &Cluster{Mode: "lookupd", L: []string{"L1", "L2"}, N: []string{"N1", "N2", "N3"},
 		Nsqd: NsqdMap{
 			"N1": {Ver: "1.3.0", Topics: TopicMap{"t1": tp()}},
@@ -725,7 +727,7 @@ func gateReplay(args []string) int {
 						nsB++
 					}
 					rep.Samples = append(rep.Samples, map[string]interface{}{"cfg": row.Cfg, "lk": row.Lk, "req": row.Req,
-						"table": map[string]interface{}{"status": row.Status, "ups": row.Ups},
+						"table":    map[string]interface{}{"status": row.Status, "ups": row.Ups},
 						"observed": obs})
 				}
 				mu.Unlock()
